@@ -553,6 +553,14 @@ example : ∀ b0, mkFifoBuf 1 = some b0 →
   subst h
   decide
 
+/-- A READ THAT FAILS (an error other than EAGAIN/EINTR -- outside the property's domain, said for completeness):
+    the handler prints one diagnostic, closes the descriptor and returns -1; nothing that had been read is lost --
+    the buffer is untouched, so `_flush_output` still writes its unterminated rest -- and nothing more is read. -/
+theorem read_error_keeps_what_was_read {β : Type} (s : Stream β) (rc : Int) :
+    (handleFail s rc).1 = -1 ∧ (handleFail s rc).2.1.buf = s.buf ∧ (handleFail s rc).2.1.pipe = s.pipe ∧
+    (handleFail s rc).2.1.closed = true ∧ (handleFail s rc).2.2 = (rc, [diag]) :=
+  ⟨rfl, rfl, rfl, rfl, rfl⟩
+
 /-! ### outside the domain: what the code does with lines over 128 KiB and with NUL bytes
 
   Not violations of C05 (its text restricts the claim to "text output free of NUL bytes whose
